@@ -20,6 +20,15 @@ const verifDir = "/verif"
 
 // repoDir is /repo; VERIF_REPO overrides it only for trials of seeded changes
 // on a scratch copy (never set by the registered commands).
+// harnessDir holds the overlay sources; VERIF_HARNESS points trials of seeded
+// changes at a frozen copy so that edits under /verif do not disturb them.
+var harnessDir = func() string {
+	if d := os.Getenv("VERIF_HARNESS"); d != "" {
+		return d
+	}
+	return filepath.Join(verifDir, "harness")
+}()
+
 // outDir receives evidence/ and replays/ (VERIF_OUT: seeded-change trials only).
 var outDir = func() string {
 	if d := os.Getenv("VERIF_OUT"); d != "" {
@@ -114,9 +123,9 @@ func runReplays(eng *sx.Engine, pkgPath string, files []string, race bool) (map[
 	}
 	sub := "."
 	pkgName := "bexpr"
-	hdir := filepath.Join(verifDir, "harness", "bexpr")
+	hdir := filepath.Join(harnessDir, "bexpr")
 	if strings.HasSuffix(pkgPath, "/grammar") {
-		sub, pkgName, hdir = "grammar", "grammar", filepath.Join(verifDir, "harness", "grammar")
+		sub, pkgName, hdir = "grammar", "grammar", filepath.Join(harnessDir, "grammar")
 	}
 	work, err := os.MkdirTemp(filepath.Join(outDir, "replays"), "build")
 	if err != nil {
@@ -133,7 +142,7 @@ func runReplays(eng *sx.Engine, pkgPath string, files []string, race bool) (map[
 		overlay[filepath.Join(repoDir, sub, "zz_verif_"+strings.TrimSuffix(n, ".go")+"_test.go")] = filepath.Join(hdir, n)
 	}
 	gen := func(tmpl, name string, extra string) error {
-		b, err := os.ReadFile(filepath.Join(verifDir, "harness", "native", tmpl))
+		b, err := os.ReadFile(filepath.Join(harnessDir, "native", tmpl))
 		if err != nil {
 			return err
 		}
@@ -310,7 +319,7 @@ func cmdRun(args []string) int {
 		fmt.Fprintf(os.Stderr, "unknown property %s\n", prop)
 		return 2
 	}
-	eng, err := sx.Load(repoDir, map[string]string{".": filepath.Join(verifDir, "harness", "bexpr"), "grammar": filepath.Join(verifDir, "harness", "grammar")})
+	eng, err := sx.Load(repoDir, map[string]string{".": filepath.Join(harnessDir, "bexpr"), "grammar": filepath.Join(harnessDir, "grammar")})
 	if err != nil {
 		// The harness overlay no longer type-checks against /repo: the check cannot run.
 		fmt.Fprintf(os.Stderr, "ENGINE-FAULT: cannot load /repo with harness overlay:\n%v\n", err)
@@ -645,7 +654,7 @@ func cmdReplay(args []string) int {
 		fmt.Fprintln(os.Stderr, err)
 		return 2
 	}
-	eng, err := sx.Load(repoDir, map[string]string{".": filepath.Join(verifDir, "harness", "bexpr"), "grammar": filepath.Join(verifDir, "harness", "grammar")})
+	eng, err := sx.Load(repoDir, map[string]string{".": filepath.Join(harnessDir, "bexpr"), "grammar": filepath.Join(harnessDir, "grammar")})
 	if err != nil {
 		fmt.Fprintln(os.Stderr, err)
 		return 2
